@@ -184,6 +184,9 @@ def guarded_plain(func_node: ast.FunctionDef, call: ast.Call, var: str, excl=_we
             pos, neg = _isinstance_names(st.test, var)
             if excl(pos) and st.body and isinstance(st.body[-1], (ast.Return, ast.Raise)) and not st.orelse:
                 return True
+            # `if not isinstance(x, (str, int)): return ...`: what follows handles plain values only
+            if neg and not pos and neg <= PLAIN_TYPES and st.body and isinstance(st.body[-1], (ast.Return, ast.Raise)) and not st.orelse:
+                return True
     return False
 
 
@@ -198,20 +201,158 @@ def wrapper_sites(program: Program):
         for n in ast.walk(f.node):
             if not isinstance(n, ast.Call) or not n.args:
                 continue
-            callee = n.func
-            is_wrap = False
-            if isinstance(callee, ast.Name):
-                r = program.resolve_global(f.module, callee.id)
-                if r and r[0] == "class" and r[1].is_subclass_of(vw):
-                    is_wrap = True
-                if callee.id in ("wrapper_cls",):
-                    is_wrap = True
-            elif isinstance(callee, ast.Attribute) and callee.attr in ("_wrapper_cls", "wrapper_cls"):
-                is_wrap = True
+            def wrapper_callee(callee) -> bool:
+                if isinstance(callee, ast.Name):
+                    r = program.resolve_global(f.module, callee.id)
+                    if r and r[0] == "class" and r[1].is_subclass_of(vw):
+                        return True
+                    return callee.id in ("wrapper_cls",)
+                if isinstance(callee, ast.Attribute):
+                    return callee.attr in ("_wrapper_cls", "wrapper_cls")
+                if isinstance(callee, ast.BoolOp) and isinstance(callee.op, ast.Or):
+                    return all(wrapper_callee(v) for v in callee.values)      # `(wrapper_cls or ValueWrapper)(val)`
+                if isinstance(callee, ast.IfExp):
+                    return wrapper_callee(callee.body) and wrapper_callee(callee.orelse)
+                return False
+            is_wrap = wrapper_callee(n.func)
             if is_wrap:
                 out.append((f, n))
     return out
 
+
+
+# ------------------------------------------------------------------ R2d a value is recorded iff its placeholder is printed
+def _recorded_not_printed(skv):
+    """create_param calls that are evaluated inside a branch CONDITION of the skeleton (`placeholder = bind(value);
+    if placeholder is None or not self.allow_parametrize: <inline>`) on a path whose text does not contain them: the value
+    is appended to the list and then written inline.  Decided per path by a truth table over the atoms of the path
+    condition: the path must be satisfiable together with the condition under which the call inside it is evaluated
+    (short-circuit order of and / or and the arms of conditional values respected)."""
+    import itertools
+    from ..symex import Phi as _Phi, negate as _neg
+    from .c06 import paths as _paths
+
+    def is_cp(x):
+        return isinstance(x, Sym) and x.kind == "call" and bool(x.args) and x.args[0] == ".create_param"
+
+    def cp_calls(x, out, d=0):
+        """the create_param(...) calls inside a value (the receiver of a printed `.get_sql`, a conditional value ...)"""
+        if d > 14:
+            return out
+        if is_cp(x):
+            out.add(show(x, -20))
+        elif isinstance(x, SlotP):
+            cp_calls(x.recv, out, d + 1)
+        elif isinstance(x, (_Phi, Alt)):
+            cp_calls(x.a, out, d + 1)
+            cp_calls(x.b, out, d + 1)
+        elif isinstance(x, Sym):
+            for a in x.args:
+                cp_calls(a, out, d + 1)
+        elif isinstance(x, Str):
+            for p_ in x.parts:
+                cp_calls(p_, out, d + 1)
+        return out
+
+    def formula(x):
+        if isinstance(x, Const):
+            return ("const", bool(x.value))
+        if isinstance(x, Sym) and x.kind == "op":
+            op = x.args[0]
+            if op == "not":
+                return ("not", formula(x.args[1]))
+            if op in ("and", "or"):
+                return (op,) + tuple(formula(a) for a in x.args[1:])
+            if op in ("is", "is not") and len(x.args) == 3 and isinstance(x.args[2], Const) and x.args[2].value is None:
+                f = is_none(x.args[1])
+                return f if op == "is" else ("not", f)
+        return ("atom", show(x, -20))
+
+    def is_none(v):
+        if isinstance(v, Const):
+            return ("const", v.value is None)
+        if isinstance(v, (_Phi, Alt)):
+            c = formula(v.cond)
+            return ("or", ("and", c, is_none(v.a)), ("and", ("not", c), is_none(v.b)))
+        if isinstance(v, (Str, SlotP)) or is_cp(v):
+            return ("const", False)          # text, or the Parameter object create_param returns
+        return ("atom", "none:" + show(v, -20))
+
+    def evaluated(x, ctx, out, d=0):
+        """(slot, condition under which it is evaluated) for every create_param call inside the value x"""
+        if d > 14:
+            return
+        if is_cp(x):
+            out.append((show(x, -20), ctx))
+            return
+        if isinstance(x, SlotP):
+            evaluated(x.recv, ctx, out, d + 1)
+            return
+        if isinstance(x, (_Phi, Alt)):
+            evaluated(x.cond, ctx, out, d + 1)
+            c = formula(x.cond)
+            evaluated(x.a, ("and", ctx, c), out, d + 1)
+            evaluated(x.b, ("and", ctx, ("not", c)), out, d + 1)
+        elif isinstance(x, Sym):
+            if x.kind == "op" and x.args[0] in ("and", "or"):
+                acc = ctx
+                for a in x.args[1:]:
+                    evaluated(a, acc, out, d + 1)
+                    fa = formula(a)
+                    acc = ("and", acc, fa if x.args[0] == "and" else ("not", fa))
+            else:
+                for a in x.args:
+                    evaluated(a, ctx, out, d + 1)
+        elif isinstance(x, Str):
+            for p_ in x.parts:
+                evaluated(p_, ctx, out, d + 1)
+        elif isinstance(x, (tuple, list)):
+            for a in x:
+                evaluated(a, ctx, out, d + 1)
+
+    def atoms(f, acc):
+        if f[0] == "atom":
+            acc.add(f[1])
+        elif f[0] != "const":
+            for g in f[1:]:
+                atoms(g, acc)
+        return acc
+
+    def ev(f, val):
+        if f[0] == "const":
+            return f[1]
+        if f[0] == "atom":
+            return val[f[1]]
+        if f[0] == "not":
+            return not ev(f[1], val)
+        if f[0] == "and":
+            return all(ev(g, val) for g in f[1:])
+        return any(ev(g, val) for g in f[1:])
+
+    def sat(f) -> bool:
+        names = sorted(atoms(f, set()))
+        if len(names) > 12:
+            return True
+        return any(ev(f, dict(zip(names, bits))) for bits in itertools.product([False, True], repeat=len(names)))
+    hits = []
+    for flat, conds in _paths(skv, limit=256, with_conds=True):
+        printed = set()
+        for p_ in flat:
+            if isinstance(p_, SlotP):
+                cp_calls(p_, printed)
+        fs = [formula(c) for c in conds]
+        for c in conds:
+            out = []
+            evaluated(c if not (isinstance(c, Sym) and c.kind == "op" and c.args[0] == "not") else c.args[1], ("const", True), out)
+            for key, E in out:
+                if key in printed:
+                    continue
+                # the part of the path condition that talks about the same things as the call's own condition
+                rel = atoms(E, set())
+                F = [f for f in fs if atoms(f, set()) & rel] or [("const", True)]
+                if sat(("and", ("and",) + tuple(F), E)):
+                    hits.append((key, show(c)[:120]))
+    return hits
 
 def check(program: Program, run: Run) -> None:
     run.explanation = (
@@ -226,6 +367,7 @@ def check(program: Program, run: Run) -> None:
     run.rule("R1 parameterizer inherited at every nested render; no str()-rendered child node")
     run.rule("R2 evaluation order of value-bearing slots == textual order in every renderer skeleton")
     run.rule("R2b no value-bearing render call is evaluated where its result may be discarded (default argument of a lookup, expression statement)")
+    run.rule("R2d create_param is evaluated only on paths that print its placeholder (a decision taken after the value was recorded is reported)")
     run.rule("R3 value-wrapper constructor arguments and create_param arguments are never Nodes (dominating isinstance guard)")
     run.rule("R4 inline/parameterised branches agree on the alias wrapper; IDX_PLACEHOLDERS total and in dialect style; 1-based numbering after append")
     sites = render_sites(program)
@@ -374,6 +516,23 @@ def check(program: Program, run: Run) -> None:
                             run.finding(f"C04/param-node-value:{dc}:{attr}",
                                         f"{dc} hands self.{attr} to create_param, but {attr} keeps the raw constructor arguments (no Term/Node exclusion): a Field inside it ends up in the value list",
                                         where=f"{part.src[2]}:{part.src[1]}", rule="R3")
+
+    # ---- R2d: recorded iff printed
+    nrec = 0
+    for c, (skv, ev) in sk.items():
+        if not any(isinstance(p_, SlotP) and "create_param" in show(p_.recv) for p_, _, _ in walk_parts(skv)) and "create_param" not in show(skv, -30):
+            continue
+        nrec += 1
+        hits = _recorded_not_printed(skv)
+        f_ = c.resolve("get_sql")
+        run.ob("C04/R2d a value handed to create_param is printed as its placeholder on every path that evaluates the call", c.qualname, not hits,
+               detail=hits[0][1] if hits else "", where=f_.loc() if f_ else "")
+        if hits:
+            dc = f_.qualname if f_ else c.qualname
+            run.finding(f"C04/recorded-not-printed:{dc}",
+                        f"{dc} evaluates create_param(...) while deciding between the inline and the parameterised form (`{hits[0][1]}`) and then takes a branch that writes the value inline: "
+                        "the value is in the list without a placeholder in the SQL, every later value shifts by one", where=f_.loc() if f_ else "", rule="R2d")
+    run.analysed["renderers_with_create_param"] = nrec
 
     # ---- R4 sibling branches
     MARK = "@ALIAS@"
